@@ -1,0 +1,7 @@
+//go:build !verif
+
+package cache
+
+// No-op counterpart of the verification hook in verif_hooks.go.
+
+func verifAfterLookup(name string, readOnly bool) {}
